@@ -53,7 +53,12 @@ def do_call(variant, x, verbose):
     np.random.seed(5)
     kw = {} if verbose == 'omit' else {'verbose': verbose}
     if variant == 'sift':
-        return S.sift(x, max_imfs=3, **kw)
+        # [n x 1 x 1] layout: the rarely visited corner of the input checks (which log what they do)
+        xin = x if x.ndim > 1 else x[:, None, None]
+        return S.sift(xin, max_imfs=3, **kw)
+    if variant == 'sift-fixed100':
+        # a fixed stop of 100 iterations: progress messages and counters inside the sifting loop
+        return S.sift(x, max_imfs=1, imf_opts={'stop_method': 'fixed', 'max_iters': 100}, **kw)
     if variant == 'mask_sift':
         # array-valued keyword options with many decimals: the logging decorators see (and must not touch) them
         freqs = np.array([0.31234567, 0.12345678])
@@ -77,7 +82,7 @@ def references(seed):
     if not _ref:
         x = the_signal(seed)
         with forkpool.installed(forkpool.SerialMP()):
-            for v in VARIANTS:
+            for v in VARIANTS + ('sift-fixed100',):
                 _ref[v] = np.asarray(do_call(v, x.copy(), 'omit')).tobytes()
     return _ref
 
@@ -116,7 +121,7 @@ def apply_op(op, pos, seed, tmpdir):
         elif name == 'enable':
             emd.logger.enable()
         elif name in ('call', 'call_sift'):
-            v = VARIANTS[(pos + _OFFSET[0]) % 4] if name == 'call' else 'sift'
+            v = VARIANTS[(pos + _OFFSET[0]) % 4] if name == 'call' else 'sift-fixed100'
             got = np.asarray(do_call(v, x.copy(), arg)).tobytes()
             if got != references(seed)[v]:
                 viols.append(('result-depends-on-logging', '%s(verbose=%r) returned a different result' % (v, arg)))
